@@ -17,6 +17,13 @@ outcome anyway) and to stay inside the fragment modelled by coq/theories/lang/La
       F13 (nil let through a later type test after narrowing): type patterns `='t` are only
           applied to values whose static type has no nil member.
 
+  * the shapes of the findings of THIS property are avoided in free generation (their reproducers
+    live in corpus/c02_known.txt): F53c02 (a name that was matched on, or holds a tuple, is never
+    re-bound; label names are bound at most once by `(x)`/`*` patterns), F64c02 (only `Name*` on a
+    union-typed scrutinee), F73 (a branch condition never ends in a non-match step that can be
+    nil; blocks always have a default branch), F75 (no function variable in scope for the added
+    fields of a tuple containing a spread).
+
 The emphasis follows the property text: failing mid-chain matches followed by variable uses,
 matches inside tuple fields and string holes, blocks inside consequences, `~` at depth, spreads,
 closures over rebinding, tail calls (`^`, `^f`, `^~`), nil short-circuit between steps.
